@@ -15,14 +15,17 @@ namespace CuqiVerif.C11
 
 /-! ## 1. every operation writes only to objects it allocated itself, or to benign caches -/
 
-/-- **op_frame.**  One operation, started in any state `s`, on any receiver and arguments:
+/-- **op_frame** (`_partial`: everything except the *content* of array-typed `_constant`s, field
+    `cval`, which `ndarray += x` mutates in place — `reduce_inplace_counterexample`; the exact
+    side condition under which that does not happen is `addConst_no_inplace_of_scalar`).
+    One operation, started in any state `s`, on any receiver and arguments:
     the heap only grows; no class tag and no non-benign field of any object that existed before
     the operation changes; every write it logs targets an object allocated during the operation
     or a benign cache field. -/
-theorem op_frame (s : St) (op : Op) :
+theorem op_frame_partial (s : St) (op : Op) :
     s.size ≤ (s.run op).1.size ∧
-    (∀ a, a < s.size → (s.run op).1.cls a = s.cls a ∧ ∀ f, f.benign = false → (s.run op).1.get a f = s.get a f) ∧
-    (∀ w, w ∈ (s.run op).1.log → w ∈ s.log ∨ s.size ≤ w.1 ∨ w.2.benign = true) := by
+    (∀ a, a < s.size → (s.run op).1.cls a = s.cls a ∧ ∀ f, f.exempt = false → (s.run op).1.get a f = s.get a f) ∧
+    (∀ w, w ∈ (s.run op).1.log → w ∈ s.log ∨ s.size ≤ w.1 ∨ w.2.exempt = true) := by
   have h := run_step (n := s.size) (Nat.le_refl _) op
   exact ⟨h.size, fun a ha => ⟨h.cls a ha, fun f hf => h.get a f ha hf⟩, h.log⟩
 
@@ -37,25 +40,25 @@ example : (exDist.run (.cond 0 [(3, 5)])).1.get 1 (.slot 0) = .num (applyFn 1 [(
 
 /-- **op_frame with an earlier watermark** — what is needed for sequences: objects older than `n`
     are protected from an operation started later (`n ≤ s.size`). -/
-theorem op_frame_watermark (n : Nat) (s : St) (hn : n ≤ s.size) (op : Op) :
-    (∀ a f, a < n → f.benign = false → (s.run op).1.get a f = s.get a f) ∧
-    (∀ w, w ∈ (s.run op).1.log → w ∈ s.log ∨ n ≤ w.1 ∨ w.2.benign = true) :=
+theorem op_frame_watermark_partial (n : Nat) (s : St) (hn : n ≤ s.size) (op : Op) :
+    (∀ a f, a < n → f.exempt = false → (s.run op).1.get a f = s.get a f) ∧
+    (∀ w, w ∈ (s.run op).1.log → w ∈ s.log ∨ n ≤ w.1 ∨ w.2.exempt = true) :=
   ⟨(run_step hn op).get, (run_step hn op).log⟩
 
 /-- **sequence_frame.**  Any interleaving of operations of any length, on the originals and on any
     objects derived from them (the addresses in `ops` are arbitrary): no non-benign field of an
     object that existed at the start changes, and the whole write log added by the sequence
     consists of writes to later objects or benign caches. -/
-theorem sequence_frame (s : St) (ops : List Op) :
-    (∀ a f, a < s.size → f.benign = false → (s.runAll ops).get a f = s.get a f) ∧
+theorem sequence_frame_partial (s : St) (ops : List Op) :
+    (∀ a f, a < s.size → f.exempt = false → (s.runAll ops).get a f = s.get a f) ∧
     (∀ a, a < s.size → (s.runAll ops).cls a = s.cls a) ∧
-    (∀ w, w ∈ (s.runAll ops).log → w ∈ s.log ∨ s.size ≤ w.1 ∨ w.2.benign = true) := by
+    (∀ w, w ∈ (s.runAll ops).log → w ∈ s.log ∨ s.size ≤ w.1 ∨ w.2.exempt = true) := by
   have h := runAll_step (n := s.size) ops s (Nat.le_refl _)
   exact ⟨h.get, h.cls, h.log⟩
 
 /-- **fingerprint_preserved.**  The observable object graph of every original is unchanged by any
     sequence of operations (unbounded length).  This is the property for the model. -/
-theorem fingerprint_preserved (s : St) (ops : List Op) (fuel a : Nat) :
+theorem fingerprint_preserved_partial (s : St) (ops : List Op) (fuel a : Nat) :
     fp s.size fuel (s.runAll ops) a = fp s.size fuel s a :=
   (runAll_step ops s (Nat.le_refl _)).fp_eq fuel a
 
@@ -70,14 +73,14 @@ lemma runAll_append (s : St) (ops1 ops2 : List Op) : s.runAll (ops1 ++ ops2) = (
 theorem siblings_independent (s : St) (ops1 ops2 : List Op) (fuel b : Nat) :
     fp (s.runAll ops1).size fuel (s.runAll (ops1 ++ ops2)) b = fp (s.runAll ops1).size fuel (s.runAll ops1) b := by
   rw [runAll_append]
-  exact fingerprint_preserved (s.runAll ops1) ops2 fuel b
+  exact fingerprint_preserved_partial (s.runAll ops1) ops2 fuel b
 
 /-- **gibbs_stream_frame.**  The re-conditioning stream of Gibbs sampling (`sweeps` sweeps over the
     parameters `pars` of target `t`, with arbitrary current values), of any length — thousands of
     re-conditionings included — leaves every pre-existing object's fingerprint unchanged. -/
 theorem gibbs_stream_frame (s : St) (t : Nat) (pars : List Nat) (vals : Nat → Nat → Int) (sweeps fuel a : Nat) :
     fp s.size fuel (s.runAll (gibbsOps t pars vals sweeps)) a = fp s.size fuel s a :=
-  fingerprint_preserved s _ fuel a
+  fingerprint_preserved_partial s _ fuel a
 
 example : (gibbsOps 4 [0, 1, 2] (fun k q => (k : Int) + q) 1000).length = 3000 := by
   have h : ∀ k, (gibbsOps 4 [0, 1, 2] (fun k q => (k : Int) + q) k).length = 3 * k := by
@@ -86,10 +89,13 @@ example : (gibbsOps 4 [0, 1, 2] (fun k q => (k : Int) + q) 1000).length = 3000 :
     | succ k ih => simp only [gibbsOps, List.length_append, ih, List.length_map, List.length_cons, List.length_nil]; omega
   rw [h]
 
-/-- **constants_on_fresh.**  `_add_constants_to_density` (`density._constant += …`) inside a
-    conditioning of a joint never lands on an object that existed before the call: every
-    `_constant` write logged by `condJoint` targets an address allocated by that call. -/
-theorem constants_on_fresh (s : St) (a : Nat) (kw : Kw) (w : Nat × Fld)
+/-- **constants_on_fresh** (`_partial`).  `_add_constants_to_density` (`density._constant += …`)
+    inside a conditioning of a joint never *re-binds* `_constant` on an object that existed before
+    the call: every write of the field `_constant` logged by `condJoint` targets an address
+    allocated by that call.  NOT covered: when the receiving copy inherited an *ndarray* constant,
+    `+=` also adds into that array object in place — and the array is shared with the density the
+    copy was made from (`reduce_inplace_counterexample`). -/
+theorem constants_on_fresh_partial (s : St) (a : Nat) (kw : Kw) (w : Nat × Fld)
     (hw : w ∈ (s.condJoint a kw).1.log) (hnew : w ∉ s.log) (hf : w.2 = .const) : s.size ≤ w.1 := by
   rcases (condJoint_good (n := s.size) (Nat.le_refl _) a kw).1.log w hw with h | h | h
   · exact absurd h hnew
@@ -105,6 +111,50 @@ def exJoint : St :=
 example : (exJoint.condJoint 2 []).2 = .obj 4 ∧ (exJoint.condJoint 2 []).1.get 4 .const = .num 7
     ∧ (exJoint.condJoint 2 []).1.get 0 .const = .none := by decide
 example : ((exJoint.condJoint 2 []).1.log.filter (fun w => w.2 = .const)) = [(4, .const)] := by decide
+
+/-- **Exact side condition of the in-place branch.**  If the density receiving `+=` holds a scalar
+    (not an array object) as `_constant`, `_add_constants_to_density` writes only to that density
+    and to objects it allocates: no array content is touched. -/
+theorem addConst_no_inplace_of_scalar (s : St) (d : Nat) (ds : List Nat) (hsc : ∀ c, s.get d .const ≠ .ref c)
+    (w : Nat × Fld) (hw : w ∈ (s.addConst d ds).log) : w ∈ s.log ∨ w = (d, .const) := by
+  unfold St.addConst at hw
+  split at hw
+  · next cell hc => exact absurd hc (hsc cell)
+  · split at hw
+    · simp only [write_log, alloc_log, List.mem_cons] at hw
+      rcases hw with h | h
+      · exact Or.inr h
+      · exact Or.inl h
+    · simp only [write_log, List.mem_cons] at hw
+      rcases hw with h | h
+      · exact Or.inr h
+      · exact Or.inl h
+
+/-- … and if it holds an array object and there is an evaluated density to add, the content of
+    that (shared) array object is written. -/
+theorem addConst_inplace_of_array (s : St) (d cell : Nat) (ds : List Nat) (hc : s.get d .const = .ref cell)
+    (he : s.hasEvals ds = true) : (cell, Fld.cval) ∈ (s.addConst d ds).log := by
+  unfold St.addConst
+  rw [hc]
+  dsimp only
+  rw [if_pos he]
+  simp [write_log]
+
+/-- A reduced density `d1` (object 0) whose `_constant` is an ndarray (object 1, content 5), put
+    into a NEW joint with an unrelated evaluated density (value 7): conditioning that joint adds
+    the 7 *into the array shared with `d1`* — `d1`'s constant becomes 12. -/
+def exArrConst : St :=
+  ⟨#[Obj.ofList .dist [(.name, .num 0), (.slot 0, .num 1), (.const, .ref 1)], Obj.ofList .arr [(.cval, .num 5)],
+     Obj.ofList .eval [(.name, .num 1), (.value, .num 7), (.const, .num 0), (.arrv, .num 1)],
+     Obj.ofList .joint [(.dens, .refs [0, 2])]], []⟩
+
+/-- **Counterexample to the full-strength statement** (faithful to the code: known finding
+    `alter-constant:ndarray-inplace`): an operation on a *new* joint changes the `_constant` seen by
+    a pre-existing density. -/
+theorem reduce_inplace_counterexample :
+    constContent exArrConst 0 = .num 5 ∧ constContent (exArrConst.run (.cond 3 [])).1 0 = .num 12
+    ∧ (1, Fld.cval) ∈ (exArrConst.run (.cond 3 [])).1.log := by
+  decide
 
 /-- the object returned by conditioning a joint is never one that existed before -/
 theorem condJoint_result_fresh (s : St) (a : Nat) (kw : Kw) (r : Nat) (h : (s.condJoint a kw).2 = .obj r) :
